@@ -1,9 +1,128 @@
 import RustbusModel.Model.Proto
+import RustbusModel.Model.FdTable
 namespace Driver.C11
-open Rustbus Rustbus.Proto
+open Rustbus Rustbus.Proto Rustbus.FdTable
 
-/-- line protocol handler for the ops `c11.*` (tokens of one request line → one response line) -/
+/-
+Request:  c11.run <op> <op> ...
+  o<f> userOpen file f | x<r> userClose raws[r] | w<r> wrap raws[r] | nb newBody
+  p<b>:<items>[:<shape>]  items = comma separated h<n> / r<n> / bad   (shape is ignored: nesting position)
+  rs<b> reset | db<b> dropBody | s<b> send | ps<files>:<idx>:<0|1> peerSend | rc receive
+  u<b>:<j> unmarshal the j-th fd value of body b | t<h> take | g<h> get | d<h> dup | c<h> clone | dh<h> drop
+Response: one token per step  <result>;<open table: files in creation order, '.'-separated>;<closes by the library>
+-/
+
+def natAfter (s : String) (n : Nat) : Option Nat := (s.drop n).toString.toNat?
+
+def parseItem (t : String) : Option Item :=
+  if t == "bad" then some .bad
+  else if t.startsWith "h" then (natAfter t 1).map Item.handle
+  else if t.startsWith "r" then (natAfter t 1).map Item.raw
+  else none
+
+def parseItems (t : String) : Option (List Item) :=
+  if t == "-" then some [] else (t.splitOn ",").mapM parseItem
+
+def parseOp (t : String) : Option Op :=
+  if t == "nb" then some .newBody
+  else if t == "rc" then some .receive
+  else if t.startsWith "ps" then
+    match ((t.drop 2).toString.splitOn ":") with
+    | [fs, ix, v] =>
+      match parseNats fs, parseNats ix with
+      | some fs, some ix => some (.peerSend fs ix (v == "1"))
+      | _, _ => none
+    | _ => none
+  else if t.startsWith "p" then
+    match ((t.drop 1).toString.splitOn ":") with
+    | b :: its :: _ =>
+      match b.toNat?, parseItems its with
+      | some b, some its => some (.push b its)
+      | _, _ => none
+    | _ => none
+  else if t.startsWith "rs" then (natAfter t 2).map Op.reset
+  else if t.startsWith "db" then (natAfter t 2).map Op.dropBody
+  else if t.startsWith "dh" then (natAfter t 2).map Op.dropHandle
+  else if t.startsWith "s" then (natAfter t 1).map Op.send
+  else if t.startsWith "u" then
+    match ((t.drop 1).toString.splitOn ":") with
+    | [b, j] =>
+      match b.toNat?, j.toNat? with
+      | some b, some j => some (.unmarshalFd b j)
+      | _, _ => none
+    | _ => none
+  else if t.startsWith "o" then (natAfter t 1).map Op.userOpen
+  else if t.startsWith "x" then (natAfter t 1).map Op.userClose
+  else if t.startsWith "w" then (natAfter t 1).map Op.wrap
+  else if t.startsWith "t" then (natAfter t 1).map Op.take
+  else if t.startsWith "g" then (natAfter t 1).map Op.get
+  else if t.startsWith "d" then (natAfter t 1).map Op.dupHandle
+  else if t.startsWith "c" then (natAfter t 1).map Op.cloneHandle
+  else none
+
+def dots (ns : List Nat) : String :=
+  if ns.isEmpty then "-" else ".".intercalate (ns.map toString)
+
+def rankOf (s : State) (d : Nat) : String :=
+  match (keys s.open).idxOf? d with
+  | some i => toString i
+  | none => "closed"
+
+/-- files behind the descriptors of a list of cells (`t` = taken, `x` = not open) -/
+def cellFiles (s : State) (fds : List Nat) : String :=
+  if fds.isEmpty then "-" else
+  ".".intercalate (fds.map (fun c =>
+    match s.cells[c]? with
+    | some x => if x.taken then "t" else
+        match lookupFd s.open x.fd with
+        | some f => toString f
+        | none => "x"
+    | none => "?"))
+
+def resStr : Res → String
+  | .ok => "ok" | .illegal => "ill" | .err => "err" | .empty => "empty"
+  | .fd none => "none" | .fd (some _) => "fd"
+
+def extra (op : Op) (s' : State) (r : Res) : String :=
+  match op, r with
+  | .push b _, _ =>
+    match s'.bodies[b]? with
+    | some bd => s!"/n{bd.fds.length},i{dots bd.idx}"
+    | none => ""
+  | .send _, .ok =>
+    match s'.wire.getLast? with
+    | some m => s!"/n{m.nfds},f{dots m.files}"
+    | none => ""
+  | .receive, .ok =>
+    match s'.bodies.getLast? with
+    | some bd => s!"/f{cellFiles s' bd.fds}"
+    | none => ""
+  | .unmarshalFd _ _, .ok =>
+    match s'.handles.getLast? with
+    | some (some c) =>
+      match s'.cells[c]? with
+      | some x => if x.taken then "/rt" else s!"/r{rankOf s' x.fd}"
+      | none => "/?"
+    | _ => "/?"
+  | _, .fd (some d) => s!"/{rankOf s' d}"
+  | _, _ => ""
+
+def stepStr (s : State) (op : Op) : State × String :=
+  let (s', r) := step s op
+  let tbl := dots (s'.open.map (·.2))
+  let nclosed := s'.libClosed.length - s.libClosed.length
+  let e := if s'.err then "!ERRSTATE" else ""
+  (s', s!"{resStr r}{extra op s' r};{tbl};{nclosed}{e}")
+
+def runStr (s : State) : List Op → List String
+  | [] => []
+  | op :: ops => let (s', t) := stepStr s op; t :: runStr s' ops
+
 def handle : List String → String
+  | "c11.run" :: toks =>
+    match toks.mapM parseOp with
+    | some ops => if ops.isEmpty then "-" else " ".intercalate (runStr State.init ops)
+    | none => "bad-op"
   | _ => "bad-op"
 
 end Driver.C11
